@@ -618,6 +618,132 @@ def check_local_repairs(prog, res, rule='L8'):
   return n
 
 
+def _reversal_under(prog, fn, outer, inner, case):
+  """True when, for this case, the statements of `outer` that precede the
+  sweep `inner` reverse the conditional axis of `layers`."""
+  ref = [None]
+  k = Kernel(prog, fn, ('layers',), None)
+  ref[0] = k
+  dec = make_decider(ref, case, fn)
+  rev = False
+  for st in outer.body:
+    if st is inner:
+      break
+    if isinstance(st, ast.If) and not st.orelse and st.body and all(
+        isinstance(x, ast.Assign) and isinstance(x.value, ast.Call) and
+        getattr(prog.resolve_call(fn, x.value), 'name', '') ==
+        '_reverse_second_list_dimension' for x in st.body):
+      if dec(st.test):
+        rev = not rev
+  return rev
+
+
+def check_opposed_pairs(prog, res, rule='L9'):
+  """C01: the trapezoid repair demands V <= 0 on the pair (cell[a][j],
+  cell[a][j+1]) of adjacent vertices along the conditional dimension.  When
+  the conditional feature is itself monotonic (increasing - the only direction
+  a Lattice accepts) and V is oriented `higher vertex - lower vertex`, the
+  earlier monotonicity step demands V >= 0 on the very same pair, so the pair
+  must end at V == 0.  The sweep writes index j+1 at iteration j and never
+  returns to the pair, hence the value after the step is V - U.  V - U >= 0
+  for every V >= 0 iff U == relu(V) exactly; a dominating update (maximum
+  over the other dimensions, running maximum) over-shoots on every vertex that
+  is not the arg-max and leaves V - U < 0: monotonicity in the conditional
+  feature is broken by the trapezoid step and nothing after it repairs it
+  (the bound step is an increasing affine map).  Configurations enumerated:
+  Edgeworth interplay mode x cond_direction x side x conditional feature
+  monotone or free."""
+  fn = prog.function(LL + '._approximately_project_trapezoid')
+  helper = prog.function(LL + '._trapezoid_violation_update')
+  res.analysed(fn, helper)
+  outer = [s for s in fn.node.body if isinstance(s, ast.For)][0]
+  inner = [s for s in outer.body if isinstance(s, ast.For)][0]
+  # the sweep is ascending in j and writes j+1 only (pair (j, j+1) is final
+  # after iteration j)
+  rng = inner.iter
+  asc = (isinstance(rng, ast.Call) and dotted(rng.func) == 'range' and
+         (len(rng.args) < 3 or (const_value(rng.args[2], None) or 0) > 0))
+  if not asc or not isinstance(inner.target, ast.Name):
+    raise AnalysisError('%s: the trapezoid sweep is no longer an ascending '
+                        'range() loop' % fn.loc(inner))
+  jv = inner.target.id
+  n = 0
+  for any_e, same_e in ((False, False), (True, False), (True, True)):
+    for direction in (1, -1):
+      case = Case({'any_edgeworth': any_e, 'same_edgeworth': same_e,
+                   'cond_direction': direction})
+      rev = _reversal_under(prog, fn, outer, inner, case)
+      for half, stmts in (('lhs', inner.body[:3]), ('rhs', inner.body[3:])):
+        ref = [None]
+        k = Kernel(prog, fn, ('layers',), None, scalars={
+            'lhs_update': Form.atom(('cell', 'prior_lhs_update')),
+            'rhs_update': Form.atom(('cell', 'prior_rhs_update'))})
+        k.inline_helpers = True
+        ref[0] = k
+        k.decide = make_decider(ref, case, fn)
+        k.run(stmts)
+        deltas = k.deltas()
+        base = 'trapezoid|any_edgeworth=%s,same=%s|cond_direction=%d|%s' % (
+            any_e, same_e, direction, half)
+        if len(deltas) != 1:
+          raise AnalysisError('%s: %s moves %d cells; L8 reports this' % (
+              fn.loc(inner), base, len(deltas)))
+        (cell, d), = deltas.items()
+        pos = all(c > 0 for c in d.t.values())
+        neg = all(c < 0 for c in d.t.values())
+        if not (pos or neg) or d.c != 0:
+          raise AnalysisError('%s: %s is not a one-signed repair; L8 reports '
+                              'this' % (fn.loc(inner), base))
+        U = d if pos else -d
+        V = _nonneg_dominating(U, violation_of)
+        if V is None:
+          raise AnalysisError('%s: %s: update is not >= relu(violation); L8 '
+                              'reports this' % (fn.loc(inner), base))
+        idx = _split_indices(cell)
+        if len(idx) != 2 or idx[1].replace(' ', '') != jv + '+1':
+          raise AnalysisError('%s: %s moves %s, not the vertex %s+1 of the '
+                              'sweep' % (fn.loc(inner), base, cell, jv))
+        partner = 'layers[%s][%s]' % (idx[0], jv)
+        cells = {a[1]: c for a, c in V.t.items() if a[0] == 'cell'}
+        if set(cells) != {cell, partner} or V.c != 0 or \
+            cells[cell] + cells[partner] != 0 or abs(cells[cell]) != 1:
+          raise AnalysisError('%s: %s: violation %s is not the difference of '
+                              'the two adjacent vertices %s, %s' % (
+                                  fn.loc(inner), base, V, partner, cell))
+        # orientation in actual vertex order: swept index j+1 is the higher
+        # vertex unless the axis was reversed
+        s = cells[cell] * (-1 if rev else 1)
+        exact = (len(U.t) == 1 and list(U.t.values())[0] == 1 and
+                 list(U.t)[0][0] == 'relu' and list(U.t)[0][1].form == V)
+        for cond_monotone in (False, True):
+          key = '%s|cond_monotone=%s' % (base, cond_monotone)
+          n += 1
+          if not cond_monotone:
+            res.ok(rule, key, fn.loc(inner.body[0]),
+                   'free conditional feature: no opposed inequality on the '
+                   'repaired pair')
+          elif s < 0:
+            res.ok(rule, key, fn.loc(inner.body[0]),
+                   'repair demands lower-vertex >= ... in the same direction '
+                   'as the monotonicity of the conditional feature (V = %s%s):'
+                   ' the move widens the monotone gap' % (
+                       V, ', axis reversed' if rev else ''))
+          else:
+            res.check(exact, rule, key, fn.loc(inner.body[0]),
+                      'opposed pair (V = %s must end at 0): the update is '
+                      'exactly relu(V), so V - U = min(V, 0) = 0' % V,
+                      'the trapezoid repair (update %s) over-shoots on the '
+                      'pair %s / %s whose monotonicity in the conditional '
+                      'feature demands the opposite inequality: V - U < 0 for '
+                      'every vertex that is not the arg-max, so with an '
+                      'Edgeworth trust configured a trapezoid trust on a '
+                      'monotonic conditional feature breaks that feature\'s '
+                      'monotonicity (strict mode and finalize_constraints)' % (
+                          U, partner, cell))
+  res.floor(rule, 24)
+  return n
+
+
 def _judge_repair(res, rule, fn, key, deltas, main_axis, expect_cells,
                   prior_ok=False):
   if len(deltas) != expect_cells:
